@@ -17,6 +17,10 @@ PLAN = {
     "class_floors": dict([("fault:" + f, 1e-9) for f in _families] + [
         ("imports:resolved", 0.08), ("imports:unresolved", 0.08), ("fault-in-library-model", 0.02), ("mode=sweep", 0.08), ("at:enc1", 0.15), ("at:enc2+", 0.03),
         ("at:lib", 0.02), ("at:libkid", 0.002), ("hole-depth=1", 0.05), ("hole-depth=2", 0.03), ("profile=1", 0.3), ("profile=2", 0.06),
+        # position of a faulted equivalence in the lists of its two variables, and what legal equivalences come before it
+        ("fault-context:after-public+private-on-both-endpoints", 0.004), ("fault-context:before-public+private-on-both-endpoints", 0.004),
+        ("fault-context:between-public-and-private-on-both-endpoints", 0.004), ("fault-context:after-public+private-on-one-endpoint", 0.004),
+        ("fault-context:bare-endpoints", 0.004), ("fault-context:after-public+private-type-equivalences", 0.004), ("fault-context:only-equivalence-of-its-variable", 0.006),
     ]),
 }
 CLAIM = {
